@@ -8,6 +8,7 @@
 #include <typeinfo>
 
 #include "hcommon.h"
+#include "default_factory.h"
 
 using namespace vh;
 typedef long double LD;
@@ -246,9 +247,50 @@ static void runOne(int geom, int prob, int alpha, int beta, double Rmax, double 
                     break;
                 }
     }
-    printf("ROW impure=%s geom=%d prob=%d alpha=%d beta=%d Rmax=%.17g kappa=%.17g delta=%.17g src=%s exact=%s bc=%s coef=%s geo=%s "
+    // default-constructed twins: at the documented default parameters every shipped class, default-constructed, is the object the
+    // selection table builds (default member initialisers are part of what ships)
+    std::string defdiff = "n/a";
+    {
+        const double kdef = (geom == 1 || geom == 2) ? 0.3 : 0.0, ddef = geom == 1 ? 0.2 : (geom == 2 ? 1.4 : 0.0);
+        if (Rmax == 1.3 && ((geom != 1 && geom != 2) || (kappa == kdef && delta == ddef))) {
+            defdiff = "-";
+            auto dcoef = makeDefaultDensityProfileCoefficients(cf);
+            if (dcoef) {
+                Problem q;
+                try {
+                    q = Problem::select(geom, prob, alpha, beta, 1.3, kdef, ddef, dcoef->getAlphaJump(), false);
+                }
+                catch (...) {
+                }
+                auto dsrc = makeDefaultSourceTerm(src);
+                auto dex  = makeDefaultExactSolution(ex);
+                auto dbc  = makeDefaultBoundaryConditions(bc);
+                auto dgeo = makeDefaultDomainGeometry(ge);
+                for (int i = 0; i < 60 && defdiff == "-" && q.geo; i++) {
+                    const double r = 1.3 * (0.02 + 0.96 * ((i * 7) % 60) / 60.0), t = 0.03 + 6.2 * ((i * 11) % 60) / 60.0;
+                    const double sn = std::sin(t), cs = std::cos(t);
+                    auto ne = [](double a, double b) { return std::memcmp(&a, &b, 8) != 0 && !(a != a && b != b); };
+                    if (dsrc && ne(dsrc->rhs_f(r, t, sn, cs), q.src->rhs_f(r, t, sn, cs)))
+                        defdiff = src + ":rhs_f";
+                    else if (dex && q.exact && ne(dex->exact_solution(r, t, sn, cs), q.exact->exact_solution(r, t, sn, cs)))
+                        defdiff = ex + ":exact_solution";
+                    else if (dbc && ne(dbc->u_D(1.3, t, sn, cs), q.bc->u_D(1.3, t, sn, cs)))
+                        defdiff = bc + ":u_D";
+                    else if (dbc && ne(dbc->u_D_Interior(1e-2, t, sn, cs), q.bc->u_D_Interior(1e-2, t, sn, cs)))
+                        defdiff = bc + ":u_D_Interior";
+                    else if (ne(dcoef->alpha(r), q.coef->alpha(r)) || ne(dcoef->beta(r), q.coef->beta(r)))
+                        defdiff = cf + ":alpha/beta";
+                    else if (dgeo && (ne(dgeo->Fx(r, t, sn, cs), q.geo->Fx(r, t, sn, cs)) || ne(dgeo->Fy(r, t, sn, cs), q.geo->Fy(r, t, sn, cs)) ||
+                                      ne(dgeo->dFx_dr(r, t, sn, cs), q.geo->dFx_dr(r, t, sn, cs)) || ne(dgeo->dFy_dr(r, t, sn, cs), q.geo->dFy_dr(r, t, sn, cs)) ||
+                                      ne(dgeo->dFx_dt(r, t, sn, cs), q.geo->dFx_dt(r, t, sn, cs)) || ne(dgeo->dFy_dt(r, t, sn, cs), q.geo->dFy_dt(r, t, sn, cs))))
+                        defdiff = ge + ":mapping/Jacobian";
+                }
+            }
+        }
+    }
+    printf("ROW defdiff=%s impure=%s geom=%d prob=%d alpha=%d beta=%d Rmax=%.17g kappa=%.17g delta=%.17g src=%s exact=%s bc=%s coef=%s geo=%s "
            "points=%ld jac=%.6g jacAt=%s jacr=%.6g jacrAt=%s rhs=%.6g rhsAt=%s bnd=%.6g bndAt=%s gyro=%.6g isgyro=%d\n",
-           impure.c_str(), geom, prob, alpha, beta, Rmax, kappa, delta, src.c_str(), ex.c_str(), bc.c_str(), cf.c_str(), ge.c_str(), R.points,
+           defdiff.c_str(), impure.c_str(), geom, prob, alpha, beta, Rmax, kappa, delta, src.c_str(), ex.c_str(), bc.c_str(), cf.c_str(), ge.c_str(), R.points,
            R.jac, R.jacAt.empty() ? "-" : R.jacAt.c_str(), R.jacr, R.jacrAt.empty() ? "-" : R.jacrAt.c_str(), R.rhs, R.rhsAt.empty() ? "-" : R.rhsAt.c_str(), R.bnd,
            R.bndAt.empty() ? "-" : R.bndAt.c_str(), gy, (int)isGyro);
     (void)GN;
